@@ -32,7 +32,7 @@ PROPS = {
         "assumed": [],
     },
     "C13": {
-        "verus": [("tree_node", [TN + "determine_node_to_get", TN + "get_appropriate_tree_node_from_storage", "TreeNode.get_from_storage", "TreeNode.get_child_label", "TreeNode.get_child_node"]),
+        "verus": [("manager", [SM + "get_direct", SM + "tic_toc", SM + "increment_metric"]), ("tree_node", [TN + "determine_node_to_get", TN + "get_appropriate_tree_node_from_storage", "TreeNode.get_from_storage", "TreeNode.get_child_label", "TreeNode.get_child_node"]),
                   ("directory_lookup", ["Directory.poll_for_azks_changes", "Directory.lookup", "Directory.batch_lookup", "Directory.key_history__head", "Directory.key_history__tail",
                                         "Directory.create_single_update_proof", "Directory.get_epoch_hash", "Directory.audit", "Azks.get_latest_epoch", "lemma_the_info"]),
                   ("azks_audit", ["Azks.get_root_hash_safe", "Azks.get_root_hash", "Directory.get_epoch_hash", "Azks.get_latest_epoch", "NodeLabel.root", "NodeLabel.new"])],
@@ -183,12 +183,12 @@ PROPS = {
     },
     "C16": {
         "verus": [("manager", [SM + "set", SM + "batch_set", SM + "commit_transaction", SM + "get", SM + "get_from_cache_only", SM + "batch_get", SM + "get_user_state",
-                               SM + "tic_toc", SM + "increment_metric", SM + "is_transaction_active"])],
+                               SM + "tic_toc", SM + "increment_metric", SM + "is_transaction_active", SM + "get_direct", SM + "tombstone_value_states"])],
         "search": True,
         "always_search": True,
         "scope": "partial (ordering contract): on every path of the storage manager that fills the object cache - the three write paths (set, batch_set, transaction commit) and the "
                  "three read-fill paths (get, batch_get, get_user_state) - a record enters the cache only if the database returned it from a read or accepted it in a write, so a write "
-                 "the database rejects never changes what a later read returns; reads prefer the pending transaction value. Expiry, eviction, flush and concurrent tasks (state behind "
+                 "the database rejects never changes what a later read returns; reads prefer the pending transaction value; get_direct ('ignoring any caching') holds no permission to fill the cache at all - the change poller's direct read of the epoch record cannot move the instance's cached view. Expiry, eviction, flush and concurrent tasks (state behind "
                  "&self, wall clock) are not decided.",
         "trusted": ["TimedCache / Database / Transaction methods external; 'the database holds this record' is a knowledge token that only their postconditions hand out",
                     "T6 single-task sequential semantics of the async functions"],
